@@ -66,7 +66,7 @@ def obligation_key(r, o):
 
 
 def finding_matches(f, key):
-    return re.search(f['obligation'], key) is not None
+    return bool(f.get('obligation')) and re.search(f['obligation'], key) is not None
 
 
 def main(argv):
@@ -112,11 +112,12 @@ def main(argv):
     if not contract_units:
         print('checker error: no contract serves %s' % pid)
         return 3
-    res = R.run_units(repo, specs, sel, jobs, timeout_ms)
+    res, ncached = run_cached(repo, specs, sel, jobs, timeout_ms, repo_root, tier)
     known = load_known()
     ledger = load_ledger().get(pid)
     code, report = evaluate(pid, res, known, ledger, repo_root, tier)
     if not no_evidence:
+        report['units_from_cache'] = ncached
         write_evidence(pid, tier, seed, res, report, time.time() - t0, specs, repo_root)
     for line in report['lines']:
         print(line)
@@ -124,6 +125,50 @@ def main(argv):
         pid, report['obligations'], report['discharged'], len(report['failed']), len(report['undecided']),
         len(report['known_hits']), len(res), time.time() - t0, code))
     return code
+
+
+def content_key(repo_root, timeout_ms):
+    import glob
+    h = hashlib.sha256()
+    files = sorted(glob.glob(os.path.join(repo_root, 'src', 'mqtt', '*.py')) + glob.glob(os.path.join(repo_root, 'src', 'mqtt', 'client', '*.py'))
+                   + glob.glob(os.path.join(VERIF, 'specs', '*.py')) + glob.glob(os.path.join(VERIF, 'pyvc', '*.py')))
+    for f in files:
+        h.update(f.replace(repo_root, '<repo>').encode())
+        h.update(open(f, 'rb').read())
+    h.update(str(timeout_ms).encode())
+    return h.hexdigest()[:24]
+
+
+def run_cached(repo, specs, sel, jobs, timeout_ms, repo_root, tier):
+    """unit results are a function of the repository sources, the sidecars, the engine and the solver budget: within
+    one state of all of those, a unit verified for one property is not verified again for the next one.  Any edit to
+    /repo, /verif/specs or /verif/pyvc changes the key.  Disabled with PYVC_NO_CACHE=1 and in the thorough tier."""
+    if os.environ.get('PYVC_NO_CACHE') or tier == 'thorough':
+        return R.run_units(repo, specs, sel, jobs, timeout_ms), 0
+    d = os.path.join(VERIF, '.pyvc_cache', content_key(repo_root, timeout_ms))
+    os.makedirs(d, exist_ok=True)
+    res = [None] * len(sel)
+    todo = []
+    for i, u in enumerate(sel):
+        f = os.path.join(d, hashlib.sha1(R.unit_label(u).encode()).hexdigest() + '.json')
+        if os.path.exists(f):
+            try:
+                r = json.load(open(f))
+                r['unit'] = tuple(tuple(x) if isinstance(x, list) else x for x in r['unit'])
+                if r['status'] == 'ok' and all(o['result'] == 'proved' or o['kind'] == 'canary' for o in r['obligations']):
+                    res[i] = r
+                    continue
+            except Exception:
+                pass
+        todo.append(i)
+    fresh = R.run_units(repo, specs, [sel[i] for i in todo], jobs, timeout_ms)
+    for i, r in zip(todo, fresh):
+        res[i] = r
+        try:
+            json.dump(r, open(os.path.join(d, hashlib.sha1(R.unit_label(sel[i]).encode()).hexdigest() + '.json'), 'w'))
+        except Exception:
+            pass
+    return res, len(sel) - len(todo)
 
 
 def evaluate(pid, res, known, ledger, repo_root, tier):
@@ -190,6 +235,12 @@ def evaluate(pid, res, known, ledger, repo_root, tier):
             else:
                 # the listed witness no longer fails but the obligation does: a different violation
                 failed.append((known_unit(res, key), o, key))
+    # findings without an obligation of their own (clauses no contract states): printed while their witness reproduces
+    for f in open_findings:
+        if not f.get('obligation') and f['id'] not in printed:
+            printed.add(f['id'])
+            if witness_reproduces(f, repo_root):
+                lines.append('KNOWN-FINDING: property=%s %s' % (pid, f['what']))
     if failed:
         code = 1
         from . import replay
@@ -264,6 +315,7 @@ def write_evidence(pid, tier, seed, res, report, wall, specs, repo_root):
             'vacuity': {'canaries_refuted': canaries_refuted, 'satisfiable_exit_paths': covers,
                         'sidecar_assumption_scan': specs.assumption_scan},
             'inlined_callees': sorted(inlined),
+            'units_reused_from_content_keyed_cache': report.get('units_from_cache', 0),
             'undecided': [u[0] for u in report['undecided']][:50],
             'failed': [k for (_, _, k) in report['failed']][:50],
             'known_findings_printed': sorted(set(f['id'] for (f, _, _) in report['known_hits'])),
